@@ -67,7 +67,9 @@ impl Variant {
     pub fn coq(&self) -> &'static str {
         match self {
             Variant::Base => "Base",
-            Variant::Updatable | Variant::UpdatableMigrated => "Updatable",
+            Variant::Updatable => "Updatable",
+            // instantiated as sg721-base; the header's h_migrated flag migrates it
+            Variant::UpdatableMigrated => "Base",
             Variant::Onchain => "Onchain",
             Variant::Nt => "NT",
         }
@@ -139,6 +141,8 @@ pub enum Op {
     UpdateTokenMd { id: u64, uri: Option<String> },
     FreezeTokenMd,
     EnableUpdatable,
+    /// MsgMigrateContract to the sg721-updatable code (only the wasm admin may)
+    Migrate,
 }
 impl Op {
     pub fn kind(&self) -> &'static str {
@@ -166,6 +170,7 @@ impl Op {
             Op::UpdateTokenMd { .. } => "update_token_metadata",
             Op::FreezeTokenMd => "freeze_token_metadata",
             Op::EnableUpdatable => "enable_updatable",
+            Op::Migrate => "migrate_to_updatable",
         }
     }
 }
@@ -186,6 +191,10 @@ pub struct Setup {
     pub funds0: u128,
     pub minter: String,
     pub info: InfoSpec,
+    /// cw2 (contract name, version) written over the record right after creation: the
+    /// collection then looks like an older deployment to `migrate`
+    #[serde(default)]
+    pub cw2: Option<(String, String)>,
 }
 #[derive(Clone, Debug, Serialize, Deserialize, PartialEq, Eq, PartialOrd, Ord, Hash)]
 pub struct Hist {
@@ -242,6 +251,8 @@ pub struct Obs {
     pub operators: Vec<(String, String, Exp)>,
     pub md_frozen: bool,
     pub md_enabled: bool,
+    /// cw2 record (contract name, version) read from raw storage
+    pub cw2: (String, String),
     /// Minter{} and Ownership{}.owner disagree (never expected; monitored)
     pub minter_mismatch: bool,
 }
@@ -296,7 +307,11 @@ fn roy_json(r: &Option<Roy>) -> Value {
 // ------------------------------------------------------------------ the world
 pub struct World {
     pub app: App,
+    /// the code the collection currently runs (a successful migration turns Base into
+    /// UpdatableMigrated)
     pub variant: Variant,
+    pub upd_code: u64,
+    pub admin: String,
     pub coll: Addr,
     pub addrs: Ids,
     pub texts: Ids,
@@ -356,7 +371,7 @@ impl World {
         let uris = Ids::with_fixed(&[], 1);
         let res = if setup.by_contract {
             let inst = CosmosMsg::Wasm(WasmMsg::Instantiate {
-                admin: Some(ADMIN.to_string()),
+                admin: Some(setup.info.creator.clone()),
                 code_id: code,
                 msg: to_json_binary(&msg).unwrap(),
                 funds,
@@ -373,7 +388,7 @@ impl World {
             })
         } else {
             match catch(|| {
-                app.instantiate_contract(code, Addr::unchecked("alice"), &msg, &funds, "collection", Some(ADMIN.to_string()))
+                app.instantiate_contract(code, Addr::unchecked("alice"), &msg, &funds, "collection", Some(setup.info.creator.clone()))
             }) {
                 Ok(Ok(a)) => Ok(a),
                 Ok(Err(e)) => Err(format!("{:#}", e)),
@@ -395,12 +410,16 @@ impl World {
             Ok(a) => a,
             Err(e) => return Err((e, addrs, texts)),
         };
+        if let Some((name, ver)) = &setup.cw2 {
+            let mut st = app.contract_storage_mut(&coll);
+            cw2::set_contract_version(&mut *st, name.clone(), ver.clone()).unwrap();
+        }
         if setup.variant == Variant::UpdatableMigrated {
-            app.migrate_contract(Addr::unchecked(ADMIN), coll.clone(), &Empty {}, upd_code)
-                .expect("sg721-base -> sg721-updatable migration of the same workspace version");
+            app.migrate_contract(Addr::unchecked(setup.info.creator.clone()), coll.clone(), &Empty {}, upd_code)
+                .expect("sg721-base -> sg721-updatable migration right after creation");
         }
         addrs.id(coll.as_str());
-        Ok(World { app, variant: setup.variant, coll, addrs, texts, uris })
+        Ok(World { app, variant: setup.variant, upd_code, admin: setup.info.creator.clone(), coll, addrs, texts, uris })
     }
 
     fn q<T: serde::de::DeserializeOwned>(&self, msg: &Value) -> T {
@@ -457,7 +476,13 @@ impl World {
         } else {
             (false, false)
         };
+        let cw2 = {
+            let st = self.app.contract_storage(&self.coll);
+            let v = cw2::get_contract_version(&*st).expect("cw2 record");
+            (v.contract, v.version)
+        };
         Obs {
+            cw2,
             info,
             num_tokens: n.count,
             tokens,
@@ -520,6 +545,7 @@ impl World {
             }
             Op::FreezeTokenMd => json!({"freeze_token_metadata": {}}),
             Op::EnableUpdatable => json!({"enable_updatable": {}}),
+            Op::Migrate => json!({}),
         }
     }
 
@@ -544,6 +570,23 @@ impl World {
         let supply0 = total(&self.app);
         let pool0 = chain::balance(&self.app, chain::FAIRBURN_POOL, NATIVE);
         let coll = self.coll.clone();
+        if st.op == Op::Migrate {
+            let (app, code) = (&mut self.app, self.upd_code);
+            let r = match catch(|| app.migrate_contract(Addr::unchecked(st.sender.clone()), coll.clone(), &Empty {}, code)) {
+                Ok(Ok(_)) => Ok(()),
+                Ok(Err(e)) => Err(format!("{:#}", e)),
+                Err(p) => Err(p),
+            };
+            return match r {
+                Ok(()) => {
+                    if !self.variant.updatable() {
+                        self.variant = Variant::UpdatableMigrated;
+                    }
+                    (true, String::new(), 0, 0)
+                }
+                Err(e) => (false, e, 0, 0),
+            };
+        }
         let r = if st.sender == PUPPET {
             let fwd = CosmosMsg::Wasm(WasmMsg::Execute {
                 contract_addr: coll.to_string(),
@@ -620,8 +663,9 @@ impl World {
             o.operators.iter().map(|(a, b, e)| (self.addrs.id(a), self.addrs.id(b), e.clone())).collect();
         ops.sort();
         let ops: Vec<String> = ops.iter().map(|(a, b, e)| format!("(({}, {}), {})", a, b, coq_exp(e))).collect();
+        let cw2s = format!("{} {}", coq_cwname(&o.cw2.0), coq_version(&o.cw2.1));
         format!(
-            "(mkObs {} {} {} (mkOwn {} {} {}) {} {} {})",
+            "(mkObs {} {} {} (mkOwn {} {} {}) {} {} {} {cws})",
             info,
             o.num_tokens,
             coq_list(&toks),
@@ -630,7 +674,8 @@ impl World {
             coq_opt_exp(&o.pending_expiry),
             coq_list(&ops),
             coq_bool(o.md_frozen),
-            coq_bool(o.md_enabled)
+            coq_bool(o.md_enabled),
+            cws = cw2s
         )
     }
     fn coq_upd(&mut self, u: &UpdSpec) -> String {
@@ -644,7 +689,14 @@ impl World {
             self.coq_opt_addr(&u.creator)
         )
     }
+    /// the Coq `action` of a step
     pub fn coq_op(&mut self, op: &Op) -> String {
+        if *op == Op::Migrate {
+            return "AMigrate".into();
+        }
+        format!("(ACall {})", self.coq_call(op))
+    }
+    fn coq_call(&mut self, op: &Op) -> String {
         match op {
             Op::Mint { id, owner, uri } => format!("(OMint {} {} {})", id, self.addrs.id(owner), self.coq_uri(uri)),
             Op::Transfer { to, id } => format!("(OTransfer {} {})", self.addrs.id(to), id),
@@ -663,10 +715,32 @@ impl World {
             Op::UpdateTokenMd { id, uri } => format!("(OUpdateTokenMd {} {})", id, self.coq_uri(uri)),
             Op::FreezeTokenMd => "OFreezeTokenMd".into(),
             Op::EnableUpdatable => "OEnableUpdatable".into(),
+            Op::Migrate => unreachable!(),
         }
     }
 }
 
+pub fn coq_cwname(n: &str) -> String {
+    match n {
+        "crates.io:sg721-base" => "NBase".into(),
+        "sg721-base" => "NBaseLegacy".into(),
+        "crates.io:sg721-updatable" => "NUpd".into(),
+        "sg721-updatable" => "NUpdLegacy".into(),
+        "crates.io:sg721-metadata-onchain" => "(NOther 1)".into(),
+        "crates.io:sg721-nt" => "(NOther 2)".into(),
+        other => format!("(NOther {})", 3 + other.len()),
+    }
+}
+/// MAJOR.MINOR.PATCH only (stated bound of the version model)
+pub fn parse_triple(v: &str) -> (u64, u64, u64) {
+    let p: Vec<u64> = v.split('.').map(|x| x.parse::<u64>().expect("numeric version component")).collect();
+    assert_eq!(p.len(), 3, "version {} is not MAJOR.MINOR.PATCH", v);
+    (p[0], p[1], p[2])
+}
+pub fn coq_version(v: &str) -> String {
+    let (a, b, c) = parse_triple(v);
+    format!("({}, {}, {})", a, b, c)
+}
 pub fn coq_opt_bool(b: Option<bool>) -> String {
     match b {
         Some(x) => format!("(Some {})", coq_bool(x)),
@@ -734,10 +808,14 @@ impl Runner {
             start_trading_time: setup.info.start_trading_time,
             royalty: setup.info.royalty.clone(),
         };
-        let (self_id, minter_id, info_s, init_s) = match r.world.as_mut() {
+        let cw2_s = match &setup.cw2 {
+            Some((n, v)) => format!("(Some ({}, {}))", coq_cwname(n), coq_version(v)),
+            None => "None".to_string(),
+        };
+        let (self_id, admin_id, minter_id, info_s, init_s) = match r.world.as_mut() {
             Some(w) => {
                 let o = w.observe();
-                let s = (w.addrs.id(w.coll.as_str()), w.addrs.id(&setup.minter), w.coq_info(&info0), format!("(Some {})", w.coq_obs(&o)));
+                let s = (w.addrs.id(w.coll.as_str()), w.addrs.id(&setup.info.creator), w.addrs.id(&setup.minter), w.coq_info(&info0), format!("(Some {})", w.coq_obs(&o)));
                 r.init_obs = Some(o.clone());
                 r.last = Some(o);
                 s
@@ -745,19 +823,21 @@ impl Runner {
             None => {
                 // rejected instantiation: print the inputs with a throw-away world-less printer
                 let mut w = PrinterOnly { addrs: &mut addrs, texts: &mut texts };
-                (0, w.addrs.id(&setup.minter), w.coq_info(&info0), "None".to_string())
+                (0, w.addrs.id(&setup.info.creator), w.addrs.id(&setup.minter), w.coq_info(&info0), "None".to_string())
             }
         };
         r.coq_head = format!(
-            "{} {} {} {} {} {} {} {} {}",
+            "{} {} {} {} {} {} {} {} {} {} {}",
             setup.variant.coq(),
             coq_bool(setup.variant == Variant::UpdatableMigrated),
             self_id,
+            admin_id,
             setup.time0,
             coq_bool(setup.by_contract),
             coq_funds(&f0, &mut r.denoms),
             minter_id,
             info_s,
+            cw2_s,
             init_s
         );
         r
@@ -856,6 +936,34 @@ pub fn shrink(h: &Hist, still_fails: &dyn Fn(&Runner) -> bool) -> Hist {
     cur
 }
 
+/// the workspace version the freshly instantiated collections record in cw2
+pub fn current_version() -> (u64, u64, u64) {
+    static CUR: std::sync::OnceLock<(u64, u64, u64)> = std::sync::OnceLock::new();
+    *CUR.get_or_init(current_version_uncached)
+}
+fn current_version_uncached() -> (u64, u64, u64) {
+    let w = World::boot(&default_setup(Variant::Updatable)).ok().expect("default collection");
+    parse_triple(&w.observe().cw2.1)
+}
+pub const NAME_UPD: &str = "crates.io:sg721-updatable";
+pub const NAME_UPD_LEGACY: &str = "sg721-updatable";
+pub const NAME_BASE: &str = "crates.io:sg721-base";
+pub const NAME_BASE_LEGACY: &str = "sg721-base";
+/// versions around every threshold `_migrate` looks at: earliest compatible 0.16.0, the
+/// 3.0.0 and 3.1.0 upgrade steps, a 3.2.x, and the current version -1 / +0 / +1
+pub fn version_grid() -> Vec<String> {
+    let (a, b, c) = current_version();
+    let mut v: Vec<(u64, u64, u64)> = vec![(0, 15, 9), (0, 16, 0), (2, 9, 9), (3, 0, 0), (3, 0, 9), (3, 1, 0), (3, 1, 1), (3, 2, 1)];
+    if c > 0 {
+        v.push((a, b, c - 1));
+    } else if b > 0 {
+        v.push((a, b - 1, 99));
+    }
+    v.push((a, b, c));
+    v.push((a, b, c + 1));
+    v.push((a + 1, 0, 0));
+    v.into_iter().map(|(x, y, z)| format!("{}.{}.{}", x, y, z)).collect()
+}
 pub fn default_info() -> InfoSpec {
     InfoSpec {
         creator: "creator".into(),
@@ -875,6 +983,7 @@ pub fn default_setup(v: Variant) -> Setup {
         funds0: 0,
         minter: PUPPET.into(),
         info: default_info(),
+        cw2: None,
     }
 }
 pub fn replay_body(prop: &str, h: &Hist, what: &str, key: &str) -> String {
